@@ -206,8 +206,8 @@ def run_case(case):  # pylint: disable=too-many-locals,too-many-branches,too-man
 
 
 def run_shard(ctx):
-    n = 200 if ctx.tier == 'quick' else 5000
-    ctx.set_budget(70 if ctx.tier == 'quick' else 2400)
+    n = 200 if ctx.tier == 'quick' else 20000
+    ctx.set_budget(70 if ctx.tier == 'quick' else 1100)
     explore(ctx, strategy(), run_case, n)
 
 
